@@ -669,6 +669,78 @@ theorem hM_entries : M 0 0 = 1/8 ∧ M 0 1 = 3/4 ∧ M 0 2 = 1/8 ∧ M 1 0 = 1/8
     M 2 0 = 3/4 ∧ M 2 1 = 1/8 ∧ M 2 2 = 1/8 := by
   refine ⟨?_, ?_, ?_, ?_, ?_, ?_, ?_, ?_, ?_⟩ <;>
     norm_num [M, S, xs, rowOf, colIdx, basisFuns, levels, innerLoop, leftOf, rightOf]
+
+theorem matVec_smul (M : ℕ → ℕ → ℚ) (n : ℕ) (a : ℚ) (v : ℕ → ℚ) (i : ℕ) :
+    matVec M n (fun j => a * v j) i = a * matVec M n v i := by
+  unfold matVec; rw [mul_sum]; apply sum_congr rfl; intro j _; ring
+
+/-- rank-one 2-D instance on `S × S`: `U = u ⊗ u`, first sweep returns `u_{i1}·sol`, second sweep `sol_{i2}·sol` -/
+def sol2 : ℕ → ℕ → ℚ := fun i1 j2 => u i1 * sol j2
+def sol1 : ℕ → ℕ → ℚ := fun i2 j1 => sol i2 * sol j1
+def U : ℕ → ℕ → ℚ := fun i1 i2 => u i1 * u i2
+
+theorem h2 : ∀ i1, i1 < S.nbasis → ∀ i2, i2 < S.nbasis → matVec M S.nbasis (sol2 i1) i2 = U i1 i2 := by
+  intro i1 _ i2 hi2
+  unfold sol2 U
+  rw [matVec_smul, hsol i2 hi2]
+theorem h1 : ∀ i2, i2 < S.nbasis → ∀ i1, i1 < S.nbasis → matVec M S.nbasis (sol1 i2) i1 = sweep1Data sol2 i2 i1 := by
+  intro i2 _ i1 hi1
+  unfold sol1 sweep1Data sol2
+  rw [matVec_smul, hsol i1 hi1]; ring
+
+theorem tmono : Monotone S.t := by
+  intro a b h
+  simp only [S]
+  have : (a : ℚ) ≤ (b : ℚ) := by exact_mod_cast h
+  linarith
+theorem hcell : ∀ s, S.degree ≤ s → s + S.degree + 2 ≤ S.nk → S.t s < S.t (s + 1) := by
+  intro s _ _
+  simp only [S]
+  push_cast
+  linarith
+
+theorem hinjT : ∀ v : ℕ → ℚ, (∀ j, j < 3 → matTVec M 3 v j = 0) → ∀ i, i < 3 → v i = 0 := by
+  intro v hv i hi
+  obtain ⟨a, b, c, d, e, f, g, h, k⟩ := hM_entries
+  have e0 := hv 0 (by decide)
+  have e1 := hv 1 (by decide)
+  have e2 := hv 2 (by decide)
+  simp only [matTVec, sum_range_succ, sum_range_zero, zero_add, a, b, c, d, e, f, g, h, k] at e0 e1 e2
+  interval_cases i <;> linarith
 end Inst
+
+/-! clamped instance: degree 1, two cells, knots 0,0,1,2,2; polynomial `q(x) = 2x+1` -/
+namespace Inst2
+def S : Space ℚ := ⟨fun i => if i ≤ 1 then 0 else if i = 2 then 1 else 2, 5, 1, false⟩
+def xs : ℕ → ℚ := fun i => (i : ℚ)
+def span : ℕ → ℕ := fun i => if i = 0 then 1 else 2
+def M : ℕ → ℕ → ℚ := fun i => rowOf false 3 1 (span i) (basisFuns S.t 1 (xs i) (span i))
+def q : ℚ → ℚ := fun x => 2 * x + 1
+def γ : ℕ → ℚ := fun j => 2 * (j : ℚ) + 1
+def dom : ℚ → Prop := fun x => x = 0 ∨ x = 1/2 ∨ x = 1 ∨ x = 2
+
+theorem hadm : S.Admissible := ⟨by decide, by decide, fun h => by cases h⟩
+theorem hnb : S.nbasis = 3 := by decide
+theorem hM : ∀ i, i < S.nbasis → collocationMatrix S xs i = some (M i) := by
+  intro i hi
+  rw [hnb] at hi
+  have hspan : findSpan S.t S.nk S.degree (xs i) = some (span i) := by
+    interval_cases i <;> norm_num [findSpan, findSpanLoop, S, xs, span]
+  unfold collocationMatrix collocRow
+  rw [hspan]
+  rfl
+theorem hM_id : ∀ i j, i < 3 → j < 3 → M i j = if i = j then 1 else 0 := by
+  intro i j hi hj
+  interval_cases i <;> interval_cases j <;>
+    norm_num [M, S, xs, span, rowOf, colIdx, basisFuns, levels, innerLoop, leftOf, rightOf]
+theorem hmv : ∀ (v : ℕ → ℚ) i, i < 3 → matVec M 3 v i = v i := by
+  intro v i hi
+  unfold matVec
+  interval_cases i <;> simp [sum_range_succ, hM_id]
+theorem hγ : ∀ x, dom x → evalSpline1D S.t S.nk S.degree γ x false = some (q x) := by
+  intro x hx
+  rcases hx with rfl | rfl | rfl | rfl <;>
+    norm_num [evalSpline1D, findSpan, findSpanLoop, S, dotFrom, basisOrDer, basisFuns, levels, innerLoop, leftOf, rightOf, γ, q]
+end Inst2
 
 end PygyroVerif.Interp
